@@ -367,6 +367,27 @@ def _binop(s, e):
     return _orig_binop(s, e)
 Ev.binop = _binop
 
+def alpha_canon(fdef):
+    """a copy of the function definition in which every local name (a name that is assigned, bound by a loop, a comprehension or an
+    import inside the function; parameters excluded) is renamed L0, L1, ... in order of first binding: pattern-based translators compare
+    this canonical text, so that renaming a local variable is not reported as a change of the code"""
+    import copy
+    f = copy.deepcopy(fdef)
+    params = {a.arg for a in f.args.args + f.args.kwonlyargs} | ({f.args.vararg.arg} if f.args.vararg else set()) | ({f.args.kwarg.arg} if f.args.kwarg else set())
+    order = []
+    for n in ast.walk(f):
+        if isinstance(n, ast.Name) and isinstance(n.ctx, ast.Store) and n.id not in params and n.id not in order: order.append(n.id)
+    # first-binding order must follow the source order, ast.walk is breadth-first: sort by position
+    pos = {}
+    for n in ast.walk(f):
+        if isinstance(n, ast.Name) and isinstance(n.ctx, ast.Store) and n.id in order:
+            key = (n.lineno, n.col_offset)
+            if n.id not in pos or key < pos[n.id]: pos[n.id] = key
+    ren = {name: f'L{i}' for i, name in enumerate(sorted(order, key=lambda x: pos[x]))}
+    for n in ast.walk(f):
+        if isinstance(n, ast.Name) and n.id in ren: n.id = ren[n.id]
+    return f, ren
+
 def parse(path):
     return ast.parse(open(path).read())
 
